@@ -50,13 +50,17 @@ def _data(rng, N, kind):
         return th
     if kind == "int":
         return rng.integers(-3, 9, N)
+    if kind == "narrowint":  # replicates of an integer-valued metric in a narrow type (a quantised score, a count in uint16): differences leave the type's range
+        dt = [np.uint8, np.int8, np.uint16, np.int16][int(rng.integers(0, 4))]
+        ii = np.iinfo(dt)
+        return rng.integers(ii.min, ii.max + 1, N).astype(dt) if rng.random() < 0.5 else rng.integers(max(ii.min, 90), min(ii.max, 140) + 1, N).astype(dt)
     # dyadic: multiples of 2^-10 in +-2^6, exact under 2^k*x + integer
     return rng.integers(-(2 ** 16), 2 ** 16, N) / 1024.0
 
 
 def cases(ctx):
     rng = ctx.rng
-    kinds = ["gauss", "const", "lattice", "skew", "outlier", "nan", "int", "dyadic"]
+    kinds = ["gauss", "const", "lattice", "skew", "outlier", "nan", "int", "dyadic", "narrowint"]
     for i in range(ctx.n(1200, 6000)):
         N = int(rng.choice([1, 2, 3, 5, 10, 50, 200, 500], p=[.1, .1, .1, .15, .2, .2, .1, .05]))
         kind = str(rng.choice(kinds))
@@ -65,10 +69,12 @@ def cases(ctx):
         that = float(rng.choice([float(np.median(fin)), fin.mean(), fin.min() - 1, fin.max() + 1, float(rng.choice(fin)), float(rng.normal())]))
         if kind in ("int", "dyadic", "lattice"):
             that = float(np.round(that * 1024) / 1024)
+        if kind == "narrowint":  # the estimate of such a metric is a value of the same type
+            that = th.dtype.type(int(np.clip(round(that), np.iinfo(th.dtype).min, np.iinfo(th.dtype).max)))
         if kind == "int" and rng.random() < 0.6:
             that = int(round(that))  # integer estimate with integer replicates (an integer-valued metric)
         alpha = float(rng.choice([0.05, 0.1, 0.5, 0.01, 0.9, float(rng.uniform(0.001, 0.999))]))
-        if kind not in ("int",) and rng.random() < 0.3:  # replicates of another magnitude (small rates, large counts): exact power-of-two scaling
+        if kind not in ("int", "narrowint") and rng.random() < 0.3:  # replicates of another magnitude (small rates, large counts): exact power-of-two scaling
             c = 2.0 ** int(rng.integers(-45, 46))
             th, that, kind = th * c, that * c, kind + "*2^k"
         if i % 40 == 7:
